@@ -213,8 +213,12 @@ impl TypeCollector {
         visitor: &V,
         config: &GenerateConfig,
     ) -> Vec<StructContext> {
-        used_structs
-            .iter()
+        // Emit declarations in name order: HashMap iteration order differs from
+        // process to process and must not leak into the generated file.
+        let mut entries: Vec<(&String, &StructInfo)> = used_structs.iter().collect();
+        entries.sort_by(|a, b| a.0.cmp(b.0));
+        entries
+            .into_iter()
             .map(|(name, struct_info)| {
                 StructContext::new(config).from_struct_info(name, struct_info, visitor)
             })
